@@ -26,13 +26,16 @@ structure Info where
   items : Nat
   shash : Nat
 
-def tableOps (es : List Entry) (is : List Info) : Ops Nat (List UInt8) where
+def tableOps (es : List Entry) (is : List Info) (ref : Bool := false) : Ops Nat (List UInt8) where
   empty := 0
   create a b := (es.find? fun e => e.base == a && e.target == b).map (·.bytes)
   write d := some d
   clear := []
   read bs := .ok bs
+  same a b := a == b
+  emptyWhenSame := ref
   apply a d :=
+    if d.isEmpty then .ok a else
     match es.find? fun e => e.base == a && e.bytes == d with
     | some e => .ok e.target
     | none => .error "NoSuchDelta"
@@ -57,6 +60,8 @@ structure Sess where
   acks : List Int := []
   entries : List Entry := []
   infos : List Info := []
+  /-- session flag `refglue` -/
+  ref : Bool := false
 
 def optStr : Option Int → String
   | none => "none"
@@ -65,10 +70,10 @@ def optStr : Option Int → String
 def wStr (ws : List MgrWarning) : String := listStr (ws.map MgrWarning.name)
 
 def doSend (s : Sess) (tick : Int) (serial : Nat) : Sess × String :=
-  let ops := tableOps s.entries s.infos
+  let ops := tableOps s.entries s.infos s.ref
   let base := s.sender.deltaTick.getD (-1)
   match sendSnap ops s.sender tick serial with
-  | .panic _ => ({}, "panic")
+  | .panic _ => ({ ref := s.ref }, "panic")
   | .ok (st', x, ms) =>
     let len := (ms.map fun (m : Msg) => match m with
       | Msg.snap _ _ _ _ _ d => d.length
@@ -83,7 +88,7 @@ def doAck (s : Sess) (v : Int) : Sess × String :=
   ({ s with sender := st' }, s!"{rs} dt={optStr st'.deltaTick} w={if w then "WeirdNegativeDeltaTick" else "-"}")
 
 def deliver (s : Sess) (m : Msg) : Sess × String :=
-  let ops := tableOps s.entries s.infos
+  let ops := tableOps s.entries s.infos s.ref
   let (c', res, ws) := s.client.step ops m
   let line := match res with
     | .error e => s!"err {e.name}"
@@ -95,8 +100,7 @@ def step (s : Sess) (toks : List String) : Sess × String :=
   let main := toks.takeWhile (· ≠ "|")
   let hint := (toks.dropWhile (· ≠ "|")).drop 1
   match main with
-  | ["new"] => ({}, "ok")
-  | ["new", "mixed-uuid-sizes"] => ({}, "ok")
+  | "new" :: flags => ({ ref := flags.contains "refglue" }, "ok")
   | ["snap", t, _] =>
     match parseInt t, hint with
     | some t, ["ok", serial, crc, items, shash, base, hex] =>
